@@ -256,7 +256,7 @@ impl<T: Debug + PartialEq, F: RealNumber, D: Distance<T, F>> CoverTree<T, F, D> 
 
         let point = &self.data[0];
         let idx = 0;
-        let mut max_dist = -F::one();
+        let mut max_dist = F::zero();
 
         for i in 1..self.data.len() {
             let dist = self.distance.distance(point, &self.data[i]);
@@ -277,6 +277,13 @@ impl<T: Debug + PartialEq, F: RealNumber, D: Distance<T, F>> CoverTree<T, F, D> 
             &mut point_set,
             &mut consumed_set,
         );
+
+        // a tree over a single point: queries only report leaves below the root,
+        // so the root needs its own point as a leaf child
+        if self.root.children.is_empty() {
+            let leaf = self.new_leaf(idx);
+            self.root.children.push(leaf);
+        }
     }
 
     fn batch_insert(
@@ -291,7 +298,7 @@ impl<T: Debug + PartialEq, F: RealNumber, D: Distance<T, F>> CoverTree<T, F, D> 
             self.new_leaf(p)
         } else {
             let max_dist = self.max(point_set);
-            let next_scale = (max_scale - 1).min(self.get_scale(max_dist));
+            let next_scale = max_scale.saturating_sub(1).min(self.get_scale(max_dist));
             if next_scale == std::i64::MIN {
                 let mut children: Vec<Node<F>> = Vec::new();
                 let mut leaf = self.new_leaf(p);
